@@ -25,11 +25,15 @@ import (
 // connected to a raw server peer; reader, loopy and keepalive goroutines are
 // background scheduled threads.
 func c11KABuild(x *vsched.X, pre int, permitWithoutStream bool) (*c13World, error) {
+	return c11KABuildPeer(x, pre, permitWithoutStream, true)
+}
+
+func c11KABuildPeer(x *vsched.X, pre int, permitWithoutStream, ackPings bool) (*c13World, error) {
 	x.BackgroundSetup()
 	cconn, sconn := wire.Pipe()
 	peer := wire.NewServerPeer(sconn)
 	peer.AutoAckSettings = true
-	peer.AutoAckPing = true
+	peer.AutoAckPing = ackPings
 	peer.WriteSettings()
 	ctx, cancel := context.WithCancel(context.Background())
 	dial := func(context.Context, string) (net.Conn, error) { return cconn, nil }
@@ -145,12 +149,94 @@ func c11KACloseScenario(name string, pre int, permit bool, how string, bound int
 	}}
 }
 
+// Keepalive dormancy racing stream creation against a peer that has gone
+// silent (reads but never answers): the keepalive tick that finds no stream
+// (about to go dormant) races a NewStream. Whatever the interleaving, once the
+// stream is open keepalive is applicable, so the dead peer must be detected:
+// after Time+Timeout (and a generous further Time+Timeout) of silence the
+// transport must have closed itself and the stream must have a status.
+func c15DormancyScenario(name string, nNew int, bound int) vsched.Scenario {
+	return vsched.Scenario{Name: name, Bound: bound, Horizon: 20000, Body: func(x *vsched.X) {
+		w, err := c11KABuildPeer(x, 0, false, false)
+		if err != nil {
+			x.Fail("C15", "setup", "set-up failed: %v", err)
+			return
+		}
+		var mu sync.Mutex
+		var streams []*ClientStream
+		x.Go("clock", func() {
+			vsched.Advance(10 * time.Second)
+		})
+		for i := 0; i < nNew; i++ {
+			x.Go(fmt.Sprintf("new%d", i), func() {
+				vsched.Yield()
+				s, err := w.tr.NewStream(context.Background(), &CallHdr{Host: "x", Method: "/s/m"}, nil)
+				if err == nil {
+					mu.Lock()
+					streams = append(streams, s)
+					mu.Unlock()
+				}
+			})
+		}
+		x.Final(func(x *vsched.X) {
+			for _, p := range x.Panics {
+				x.Fail("C15", "panic", "%s", p)
+			}
+			mu.Lock()
+			n := len(streams)
+			mu.Unlock()
+			if n < nNew {
+				x.Fail("C15", "newstream-failed-or-hung", "only %d of %d NewStream calls succeeded on a live transport (%s)", n, nNew, x.Stuck)
+				return
+			}
+			if n == 0 {
+				x.Outcome("no-stream")
+				return
+			}
+			// the peer stays silent: let 2x(Time+Timeout) of virtual time pass
+			closedAfter := -1
+			for i := 0; i < 4 && closedAfter < 0; i++ {
+				if i%2 == 0 {
+					time.Sleep(10 * time.Second)
+				} else {
+					time.Sleep(time.Second)
+				}
+				synctest.Wait()
+				if w.tr.ctx.Err() != nil {
+					closedAfter = i
+				}
+			}
+			if closedAfter < 0 {
+				w.tr.mu.Lock()
+				dormant, active := w.tr.kpDormant, len(w.tr.activeStreams)
+				w.tr.mu.Unlock()
+				x.Fail("C15", "dead-peer-not-detected", "%d stream(s) open, peer silent for 22s with Time=10s Timeout=1s, transport still open (keepalive dormant=%v, active streams=%d, frames seen by peer: %s)", n, dormant, active, w.peer.LogString())
+				x.Fail("C11", "dead-peer-not-detected", "%d stream(s) open, peer silent for 22s with Time=10s Timeout=1s, transport still open (keepalive dormant=%v)", n, dormant)
+				return
+			}
+			for _, s := range streams {
+				select {
+				case <-s.Done():
+				default:
+					x.Fail("C15", "rpc-without-status-after-keepalive-close", "stream %d has no status after keepalive closed the transport", s.id)
+				}
+			}
+			x.Outcome(fmt.Sprintf("closed-after-step=%d", closedAfter))
+		})
+		x.Cleanup(func() {
+			w.cancel()
+			w.peer.Close()
+			w.tr.Close(errors.New("verif: done"))
+		})
+	}}
+}
+
 func TestVerif_C11_KeepaliveCloseSched(t *testing.T) {
 	props := []string{"C11", "C15"}
 	r := vk.Start(t, "c11_kaclose_sched", "exploration", props...)
 	defer r.Finish()
 	for _, p := range props {
-		r.Rule(p, "every schedule with at most B preemptions (quick 1, thorough 2) of a real, fully instrumented http2Client with client keepalive enabled (reader, loopy and keepalive goroutines are scheduled threads) in which the keepalive timer becomes due (virtual clock step of Time) while the connection is torn down by Close, by a server GOAWAY with an illegal last-stream-id, or by the server closing the connection, with 0-1 open streams and PermitWithoutStream on/off; at quiescence Close has returned, the keepalive and reader goroutines have exited and every stream has a status; non-trivial = executions deviating from the default schedule")
+		r.Rule(p, "every schedule with at most B preemptions (quick 1, thorough 2) of a real, fully instrumented http2Client with client keepalive enabled (reader, loopy and keepalive goroutines are scheduled threads) in which the keepalive timer becomes due (virtual clock step of Time) while the connection is torn down by Close, by a server GOAWAY with an illegal last-stream-id, or by the server closing the connection, with 0-1 open streams and PermitWithoutStream on/off; at quiescence Close has returned, the keepalive and reader goroutines have exited and every stream has a status; plus the keepalive tick that is about to go dormant (no stream) racing NewStream against a peer that never answers: once the stream is open the dead peer is detected (transport closed within 2x(Time+Timeout) of silence) whatever the interleaving; non-trivial = executions deviating from the default schedule")
 		r.Assume(p, "scheduling points at sync/atomic/channel operations of internal/transport suffice; x/net/http2 framing and the in-memory pipe are not instrumented")
 	}
 	b := r.Pick(1, 2)
@@ -161,6 +247,10 @@ func TestVerif_C11_KeepaliveCloseSched(t *testing.T) {
 	scs = append(scs, c11KACloseScenario("kaclose/close/pre0", 0, false, "close", b), c11KACloseScenario("kaclose/close/pre0/permit", 0, true, "close", b))
 	if r.Thorough() {
 		scs = append(scs, c11KACloseScenario("kaclose/badgoaway/pre0", 0, false, "badgoaway", b), c11KACloseScenario("kaclose/close/pre1/permit", 1, true, "close", b))
+	}
+	scs = append(scs, c15DormancyScenario("kadormant/new1", 1, b+1))
+	if r.Thorough() {
+		scs = append(scs, c15DormancyScenario("kadormant/new2", 2, b))
 	}
 	vsched.RunScenarios(t, r, props, scs)
 	for _, p := range props {
